@@ -356,7 +356,7 @@ class Session:
         except Exception as ex:  # noqa  -- an exception escaping the library is an observation, not a failure of the harness
             g = self.g
             rep = {'numIter': -1, 'converged': False, 'lenResults': -1, 'lastComplete': False, 'rows': -1, 'initialOk': False, 'finalOk': False,
-                   'chi2sOk': False, 'finalIsChi2': False, 'appliedSet': [-1], 'verboseOk': True, 'splitOk': True, 'freshOk': True, 'strRows': -1, 'strHeaderOk': False}
+                   'chi2sOk': False, 'finalIsChi2': False, 'appliedSet': [-1], 'verboseOk': True, 'splitOk': True, 'freshOk': True, 'freshPosesOk': True, 'strRows': -1, 'strHeaderOk': False}
             self.emit({'op': 'OptCall', 'maxIter': int(max_iter), 'fixFirst': bool(fix_first), 'verbose': bool(verbose), 'cls': ['F'] * int(max_iter), 'rep': rep,
                        'raised': True}, g._vertices, g._edges,
                       {'chi2s': [], 'report': {}, 'nan': False, 'was_fixed': [], 'tol': tol, 'isolated_fixed': [], 'exception': repr(ex)})
@@ -426,11 +426,13 @@ class Session:
                   'was_fixed': was_fixed, 'tol': tol,
                   'isolated_fixed': [bool(v.fixed) and not any(v in e.vertices for e in g._edges) for v in g._vertices]}
         rep['freshOk'] = True
+        rep['freshPosesOk'] = True
         if fresh_g is not None:
             # the same call on a graph built from scratch out of the numbers the recorded graph had before the call
             with contextlib.redirect_stdout(io.StringIO()):
                 r4 = fresh_g.optimize(tol=tol, max_iter=m, fix_first_pose=fix_first, verbose=False)
-            rep['freshOk'] = bool(pose_digests(fresh_g) == after and r4.num_iterations == ret.num_iterations and r4.converged == ret.converged
+            rep['freshPosesOk'] = bool(pose_digests(fresh_g) == after)
+            rep['freshOk'] = bool(rep['freshPosesOk'] and r4.num_iterations == ret.num_iterations and r4.converged == ret.converged
                                   and same(r4.final_chi2, ret.final_chi2) and same(r4.initial_chi2, ret.initial_chi2)
                                   and len(r4.iteration_results) == len(ret.iteration_results))
         if twin:
